@@ -41,7 +41,8 @@ META = {
              'direct/Optional/list/dict/tuple/variadic tuple/list[dict]/Optional[list]; engines default and v1; dump-then-load and load-first '
              '(documents built by the harness); tag assignment = full product {explicit, none} x {member auto flag} x {container auto flag}; histories: '
              'members dumped / loaded alone (both orders) before the container is first used; documents as dict / OrderedDict / defaultdict / user subclass; '
-             'plus a small stream of families with equal __name__s (region F9). distinct = distinct '
+             'a stream of RICH members (path fields, aliases, defaults/factories, skip rules, init=False, nested dataclasses/containers, CatchAll, inheritance '
+             'between members; direct predicates only); plus a small stream of families with equal __name__s (region F9). distinct = distinct '
              'configuration JSON; every configuration has >= 2 look-alike members, so every one is non-trivial.'),
     'trusted_base': ['model coq/model/TagUnion.v transcribes UnionParser.__call__/__post_init__, v1 load_to_union and the member loaders\' '
                      'unknown-key handling (validated by the correspondence run)'],
@@ -151,6 +152,129 @@ def gen_config(rng, engine, mode, equal_names=False, order_idx=None):
     return cfg
 
 
+# ---- rich members: the declaration styles of the other properties, crossed with the tag modes ----------------------
+RICH_POOL = [   # name, type, kind, value generator, default source (for the 'default' style)
+    ('a', 'int', 'plain', lambda r: r.randrange(-9, 10), '3'),
+    ('b', 'str', 'plain', lambda r: r.choice(['', 'x', "q'\"\\", 'K0']), "'dflt'"),
+    ('d', 'List[int]', 'plain', lambda r: [r.randrange(0, 10) for _ in range(r.choice([0, 2]))], 'field(default_factory=list)'),
+    ('m', 'Dict[str, int]', 'plain', lambda r: {'k%d' % i: i for i in range(r.choice([0, 2]))}, 'field(default_factory=dict)'),
+    ('o', 'Optional[int]', 'plain', lambda r: r.choice([None, 4]), 'None'),
+    ('n', 'Inner', 'inner', lambda r: {'x': r.randrange(0, 10), 'y': r.choice(['y', 'z'])}, 'field(default_factory=Inner)'),
+    ('l', 'List[Inner]', 'innerlist', lambda r: [{'x': i, 'y': 'w'} for i in range(r.choice([0, 1, 2]))], 'field(default_factory=list)'),
+]
+
+
+def rich_field(rng, engine, spec, force_default):
+    """(declaration line, has_default) for one field in a random declaration style."""
+    name, typ, kind, _, dflt = spec
+    style = rng.choice(['plain', 'plain', 'default', 'path', 'path', 'alias', 'skip'])
+    if style == 'skip' and typ != 'int':
+        style = 'plain'
+    has_default = force_default or style in ('default', 'skip') or rng.random() < 0.3
+    if style in ('plain', 'default'):
+        return '%s: %s%s' % (name, typ, ' = ' + dflt if has_default else ''), has_default
+    factory = dflt.startswith('field(default_factory=')
+    darg = ''
+    if has_default:
+        darg = ', default_factory=' + dflt[len('field(default_factory='):-1] if factory else ', default=' + dflt
+    if style == 'skip':
+        return '%s: %s = skip_if_field(EQ(0), default=0)' % (name, typ), True
+    if engine == 'v1':
+        fn = 'AliasPath' if style == 'path' else 'Alias'
+        key = 'pp.%s' % name if style == 'path' else '%s_X' % name.upper()
+        return '%s: %s = %s(%r%s)' % (name, typ, fn, key, darg), has_default
+    if style == 'path':
+        if rng.random() < 0.5 and not factory:
+            return '%s: Annotated[%s, KeyPath(%r)]%s' % (name, typ, 'pp.%s' % name, ' = ' + dflt if has_default else ''), has_default
+        return '%s: %s = path_field(%r%s)' % (name, typ, 'pp.%s' % name, darg), has_default
+    if rng.random() < 0.5 and not factory:
+        return '%s: Annotated[%s, json_key(%r, all=True)]%s' % (name, typ, '%s_X' % name.upper(), ' = ' + dflt if has_default else ''), has_default
+    return '%s: %s = json_field(%r, all=True%s)' % (name, typ, '%s_X' % name.upper(), darg), has_default
+
+
+def gen_rich_config(rng, engine):
+    n = rng.choice([2, 3, 3, 4])
+    root_auto = rng.random() < 0.5
+    inherit = rng.random() < 0.25          # member 1 subclasses member 0 (plain dataclasses, auto tags from the container)
+    if inherit:
+        root_auto = True
+    tagpool = rng.sample(ODD, n) if rng.random() < 0.4 else ['t%d' % i for i in range(n)]
+    identical = rng.random() < 0.5
+    base_specs = rng.sample(RICH_POOL, rng.choice([2, 3, 4]))
+    members = []
+    for i in range(n):
+        specs = base_specs if identical else rng.sample(RICH_POOL, rng.choice([1, 2, 3, 4]))
+        specs = sorted(specs, key=lambda sp: [x[0] for x in RICH_POOL].index(sp[0]))
+        child = inherit and i == 1
+        if child:
+            specs = [sp for sp in RICH_POOL if sp[0] not in {x for x in members[0]['_names']}][:2]
+        lines, kinds = [], {}
+        decl = [rich_field(rng, engine, sp, force_default=child) for sp in specs]
+        order = sorted(range(len(specs)), key=lambda j: decl[j][1])      # fields without default first
+        for j in order:
+            lines.append(decl[j][0])
+            kinds[specs[j][0]] = specs[j][2]
+        if not lines:
+            lines = ['pass']
+        explicit = rng.random() < 0.5 and not (inherit and i < 2)
+        own_auto = rng.random() < 0.25 and not (inherit and i < 2)
+        if not explicit and not root_auto and not own_auto:
+            explicit = True
+        m = {'pyname': 'K%d' % i, 'style': 'plain' if (inherit and i < 2) else rng.choice(['inner', 'plain']),
+             'body': lines, 'kinds': kinds, '_names': [sp[0] for sp in specs] + (members[0]['_names'] if child else []),
+             '_specs': [sp[0] for sp in specs] + (members[0]['_specs'] if child else []),
+             'tag': tagpool[i] if explicit else None, 'own_auto': own_auto,
+             # default engine: a CatchAll field also captures the root key of a path field (C10's business): not combined
+             'catchall': (not inherit) and rng.random() < 0.25 and not (engine == 'v0' and any('pp.' in ln for ln in lines)),
+             'fields': []}
+        if child:
+            m['base'] = 0
+            m['kinds'] = dict(members[0]['kinds'], **kinds)
+        members.append(m)
+    unknown = rng.choice([None, None, 'raise'])
+    if unknown is None and not inherit:
+        for m in members:
+            # an init=False field is dumped but not an init argument: only where its key may be ignored on load
+            if not m['catchall'] and rng.random() < 0.2:
+                m['body'] = [ln for ln in m['body'] if ln != 'pass'] + ['z: int = field(default=9, init=False)']
+                m['kinds']['z'] = 'noinit'
+                m['_specs'] = m['_specs'] + ['z']
+    scalars = [sc for sc in ['int', 'str', 'None'] if rng.random() < 0.25]
+    args = list(range(n)) + scalars
+    rng.shuffle(args)
+    tk = rng.choice([None, 'type', 'kind'] + ODD)
+    cfg = {'engine': engine, 'mode': 'roundtrip', 'rich': True, 'members': members, 'order': args,
+           'relation': 'rich-identical' if identical else 'rich-mixed',
+           'tagging': 'explicit' if all(m['tag'] for m in members) else ('auto' if not any(m['tag'] for m in members) else 'mixed'),
+           'doc_type': rng.choice(['dict', 'dict', 'OrderedDict', 'subclass']),
+           'history': rng.choice(['none', 'none', 'alone_dump', 'alone_dump_load']),
+           'container': {'tag_key': tk, 'auto_assign_tags': root_auto, 'position': rng.choice(POSITIONS), 'unknown': unknown}}
+    ops = []
+    byname = {sp[0]: sp for sp in RICH_POOL}
+    allvals = []
+    for i, m in enumerate(members):
+        vals = {nm: (9 if nm == 'z' else byname[nm][3](rng)) for nm in m['_specs']}
+        allvals.append(vals)
+    hist_kinds = {'none': [], 'alone_dump': ['alone_dump'], 'alone_dump_load': ['alone_dump', 'alone_load']}[cfg['history']]
+    for kd in hist_kinds:
+        i = rng.randrange(n)
+        ops.append({'op': kd, 'member': i, 'values': allvals[i], 'doc': allvals[i]})
+    for i in range(n):
+        ops.append({'op': 'roundtrip', 'member': i, 'values': allvals[i]})
+    tags = [expected_tag(cfg, i) for i in range(n)]
+    t0 = tags[0] or 'x'
+    for t in [x for x in ['nope', t0.lower() + '_', t0 + t0] if x not in tags][:2]:
+        ops.append({'op': 'retag', 'member': 0, 'values': allvals[0], 'tag': t, 'tag_key': tag_key(cfg), 'expect': 'unknown_tag'})
+    ops.append({'op': 'retag', 'member': 0, 'values': allvals[0], 'tag': None, 'tag_key': tag_key(cfg), 'expect': 'no_tag'})
+    if n > 1 and tags[1]:
+        # K0's dump relabelled with K1's tag must be handled by K1's loader (or rejected by it), never silently stay K0
+        ops.append({'op': 'retag', 'member': 0, 'values': allvals[0], 'tag': tags[1], 'tag_key': tag_key(cfg), 'expect': 'other_member', 'other': 1})
+    for m in members:
+        m.pop('_names', None); m.pop('_specs', None)
+    cfg['ops'] = ops
+    return cfg
+
+
 def gen_ops(cfg, rng):
     ops = []
     members = cfg['members']
@@ -201,6 +325,9 @@ def gen_configs(ctx):
             c['order'] = list(p)
             c['ops'] = [o for o in c['ops'] if not (o['op'] == 'scalar' and type(o['value']).__name__ not in p)]
             cfgs.append(c)
+    # rich members: paths, aliases, defaults / factories, skip rules, nested dataclasses and containers, inheritance
+    for _ in range(160 if quick else 1500):
+        cfgs.append(gen_rich_config(rng, rng.choice(['v0', 'v1'])))
     # region F9: equal __name__s
     for _ in range(30 if quick else 200):
         cfgs.append(gen_config(rng, rng.choice(['v0', 'v1']), rng.choice(['roundtrip', 'loadfirst']), equal_names=True))
@@ -267,9 +394,57 @@ def canon_val(v):
     raise ValueError(v)
 
 
+def check_op_rich(cfg, op, r):
+    """Direct predicates for members declared with paths / aliases / defaults / skip rules / nested classes /
+    inheritance: the tag is written at the top level of the member's dump under the tag key, the dump loads back as
+    the same class and an equal instance; a relabelled dump never stays the original class."""
+    tk = tag_key(cfg)
+    if op['op'] in ('alone_dump', 'alone_load'):
+        return None
+    i = op['member']
+    if op['op'] == 'roundtrip':
+        tag = expected_tag(cfg, i)
+        d = r.get('dumped', {}).get('dict') if isinstance(r.get('dumped'), dict) else None
+        if d is None:
+            return ('dump of a K%d instance raised %s: %s' % (i, r.get('err'), (r.get('msg') or '')[:160]), i)
+        top = {k['str']: v for k, v in d}
+        if top.get(tk) != {'str': tag}:
+            return ('dump of a K%d instance has %r under the tag key %r, expected %r (keys %r)' % (i, top.get(tk), tk, tag, sorted(top)), i)
+        if 'err' in r:
+            return ('load(dump(k)) of a K%d instance raised %s: %s' % (i, r['err'], (r.get('msg') or '')[:160]), i)
+        if r['loaded_member'] != i:
+            return ('type(load(dump(k))) is member %r, expected member %d' % (r['loaded_member'], i), i)
+        if not r['equal']:
+            return ('load(dump(k)) != k: %r' % (r['loaded'],), i)
+        return None
+    if op['op'] == 'retag':
+        if op['expect'] == 'unknown_tag':
+            if r.get('err') != 'ParseError':
+                return ('unknown tag %r: got %s, expected ParseError' % (op['tag'], r.get('err') or 'a value'), None)
+            want = sorted({t for t in (expected_tag(cfg, j) for j in range(len(cfg['members']))) if t})
+            if r.get('valid_tags') != want:
+                return ('unknown tag: ParseError lists valid tags %r, expected %r' % (r.get('valid_tags'), want), None)
+            return None
+        if op['expect'] == 'no_tag':
+            scal = [x for x in cfg['order'] if isinstance(x, str)]
+            if cfg['engine'] == 'v1' and any(x in ('str', 'bool') for x in scal):
+                return None
+            if r.get('err') != 'ParseError':
+                return ('no tag: got %s, expected ParseError' % (r.get('err') or 'a value %r' % (r.get('loaded'),)), None)
+            return None
+        if op['expect'] == 'other_member':
+            # dispatch depends on the tag alone: the other member's loader runs (it may accept or reject the fields)
+            if 'err' not in r and r.get('loaded_member') != op['other']:
+                return ('K0 dump relabelled %r loaded as member %r, expected member %d or a load error' % (op['tag'], r.get('loaded_member'), op['other']), None)
+            return None
+    return None
+
+
 def check_op(cfg, op, r):
     """None if the property holds for this operation, else (description, member index or None)."""
     tk = tag_key(cfg)
+    if cfg.get('rich'):
+        return check_op_rich(cfg, op, r)
     if op['op'] == 'roundtrip':
         i = op['member']
         if 'err' in r:
@@ -493,8 +668,8 @@ def eval_model(ctx, cfgs, results, limit):
     for ci, (cfg, res) in enumerate(zip(cfgs, results)):
         if ci >= limit:
             break
-        if res.get('setup'):
-            continue
+        if res.get('setup') or cfg.get('rich'):
+            continue          # rich members: direct predicates only (the model's members have plain fields)
         pre, items = model_exprs(cfg, res, ci)
         if cur_exprs and len(cur_exprs) + len(items) > 200:
             chunks.append((cur_pre, cur_plan, cur_exprs)); cur_pre, cur_plan, cur_exprs = [], [], []
@@ -575,6 +750,14 @@ def run(ctx):
         ctx.count(1, key=key, nontrivial=True)
         ctx.hist('engine/mode', '%s/%s' % (cfg['engine'], cfg['mode']))
         ctx.hist('members', len(cfg['members']))
+        if cfg.get('rich'):
+            for m_ in cfg['members']:
+                for line in m_.get('body', []):
+                    for kw_ in ('KeyPath', 'path_field', 'AliasPath', 'Alias(', 'json_key', 'json_field', 'skip_if_field', 'default_factory', 'Inner', 'init=False'):
+                        if kw_ in line:
+                            ctx.hist('rich_declarations', kw_.rstrip('('))
+                if m_.get('base') is not None:
+                    ctx.hist('rich_declarations', 'inherits member')
         ctx.hist('relation', cfg['relation'])
         ctx.hist('tagging', cfg['tagging'])
         ctx.hist('position', cfg['container']['position'])
